@@ -76,7 +76,7 @@ func zzSnapOpts(o *Options) string {
 	return s + ";algo=" + string(rune('0'+int(o.PaginationAlgo))) + ";flags=" + string(rune('0'+fl/10)) + string(rune('0'+fl%10))
 }
 
-var zzURLs = []string{"http://h.t/a?page=2", "http://h.t/story/2/", "https://h.t/dir/page.html#frag", "http://h.t"}
+var zzURLs = []string{"http://h.t/a?page=2", "http://h.t/story/2/", "https://h.t/dir/page.html#frag", "http://h.t", "/relative/only/", "//h.t/story/2", "page.html?p=2"}
 
 func zzOpts() (*Options, *nurl.URL) {
 	if vx.Choose("optsnil", 4) == 0 {
